@@ -111,6 +111,12 @@ func (ctx Context) createFirstLinePango(layout *text.TextLayoutPango,
 	output.Angle = angle
 	output.Text = textRunes
 
+	if fontSize < 1e-6 {
+		// nothing is visible (same threshold as document.drawFirstLine), and the glyph
+		// offsets and advances below are normalised by the font size: 0/0 is NaN
+		return output
+	}
+
 	for run := firstLine.Runs; run != nil; run = run.Next {
 
 		// Pango objects
